@@ -318,6 +318,7 @@ func checkC08(c *Ctx, r *Report) {
 	checkDMEccOrder(c, r)
 	checkDMFrame(c, r)
 	checkDMSweep(c, r)
+	checkDMPadding(c, r) // the pad codewords at and beyond position 253 (also C02)
 	r.Note("not decided: the traversal loop of Place / readCodewords beyond its shapes, corner cases and trigger conditions")
 }
 
